@@ -32,7 +32,13 @@ tZ == <<122>>
 tSpE == <<32, 233, 32>>                                                                      \* " e-acute "
 tE == <<82, 101, 110, 233>>                                                                  \* "Rene-acute": a multi-byte last character
 tCjk == <<26481, 20140, 9>>                                                                  \* two CJK characters and a tab
-Texts == {<<>>, t12, tNeg3, tPlus5, tPad7, t15, tAbc, tTrue, tTs, tTsBad, tIv, tSpX, tSpE, tE, tCjk, MaxText, MaxPlus1Text, MinText, LongDigits, U32WrapText}
+\* interval texts at and beyond the representable range (an INTERVAL column must read them as a value or as NULL, never crash), a negative one
+tIvHuge == <<57, 57, 57, 57, 57, 57, 57, 57, 57, 57, 57, 57, 57, 57, 57, 57, 58, 48, 58, 48>>
+tIvMax1 == <<50, 53, 54, 50, 48, 52, 55, 55, 56, 56, 48, 49, 53, 58, 49, 50, 58, 53, 54>>
+tIvSecs == <<48, 58, 48, 58, 57, 50, 50, 51, 51, 55, 50, 48, 51, 54, 56, 53, 52, 55, 55, 53, 56, 48, 55>>
+tIvNeg == <<45, 49, 58, 45, 50, 58, 45, 51>>
+tIv4 == <<49, 58, 50, 58, 51, 58, 52>>
+Texts == {tIvHuge, tIvMax1, tIvSecs, tIvNeg, tIv4, <<>>, t12, tNeg3, tPlus5, tPad7, t15, tAbc, tTrue, tTs, tTsBad, tIv, tSpX, tSpE, tE, tCjk, MaxText, MaxPlus1Text, MinText, LongDigits, U32WrapText}
 GStates == {NoGroup} \cup {G(x) : x \in Texts}
 
 Groups7(g1, g2, g3) == Match(<<g1, g2, g3, NoGroup, NoGroup, NoGroup, NoGroup>>)
